@@ -5,27 +5,35 @@
 (* "mru" walks 1, 2, ..., n with next() and n, n-1, ... with next_back();  *)
 (* kind "lru" is its exact reverse.  State: (lo, hi) = the two cursors     *)
 (* into the traversal order; rem = hi - lo + 1 entries are still to come.  *)
-(* word: sequence over {"n", "b"} (next / next_back).                      *)
+(* word: sequence of steps <<dir, skip>>: dir "n" (front) or "b" (back);   *)
+(* skip = -1 is next() / next_back(); skip = k >= 0 is nth(k) / nth_back(k)*)
+(* which discards k entries and yields the next one, or exhausts the       *)
+(* iterator when fewer than k + 1 entries are left.  After the word the    *)
+(* iterator is consumed by one of count(), last(), fold (collect), rfold.  *)
 (***************************************************************************)
-EXTENDS Naturals, Sequences, LRUList
+EXTENDS Integers, Sequences, LRUList
 
 Order(list, kind) == IF kind = "lru" THEN Rev(list) ELSE list
 \* projection of an entry according to the iterator family: entries, keys only, values only
 Proj(e, proj) == CASE proj = "kv" -> <<e.k, e.v>> [] proj = "k" -> <<e.k, 0>> [] proj = "v" -> <<0, e.v>>
 NoItem == <<>>
 
+Dir(st) == st[1]
+Skip(st) == IF st[2] < 0 THEN 0 ELSE st[2]
 \* cursor state after a prefix of the word
 RECURSIVE Cursor(_, _, _, _)
 Cursor(word, i, lo, hi) ==
   IF i = 0 THEN <<lo, hi>>
   ELSE LET c == Cursor(word, i - 1, lo, hi) IN
        IF c[1] > c[2] THEN c
-       ELSE IF word[i] = "n" THEN <<c[1] + 1, c[2]>> ELSE <<c[1], c[2] - 1>>
-\* what step i of the word yields
-Yield(S, word, i, proj) ==
+       ELSE IF Skip(word[i]) >= c[2] - c[1] + 1 THEN <<c[2] + 1, c[2]>>            \* fewer than skip+1 left: exhausted
+       ELSE IF Dir(word[i]) = "n" THEN <<c[1] + Skip(word[i]) + 1, c[2]>> ELSE <<c[1], c[2] - Skip(word[i]) - 1>>
+\* index (into the traversal order) of what step i of the word yields; 0 = nothing
+YieldIdx(S, word, i) ==
   LET c == Cursor(word, i - 1, 1, Len(S)) IN
-  IF c[1] > c[2] THEN NoItem
-  ELSE IF word[i] = "n" THEN Proj(S[c[1]], proj) ELSE Proj(S[c[2]], proj)
+  IF c[1] > c[2] \/ Skip(word[i]) >= c[2] - c[1] + 1 THEN 0
+  ELSE IF Dir(word[i]) = "n" THEN c[1] + Skip(word[i]) ELSE c[2] - Skip(word[i])
+Yield(S, word, i, proj) == LET j == YieldIdx(S, word, i) IN IF j = 0 THEN NoItem ELSE Proj(S[j], proj)
 Rem(S, word, i) == LET c == Cursor(word, i, 1, Len(S)) IN IF c[1] > c[2] THEN 0 ELSE c[2] - c[1] + 1
 \* the entries a clone taken after i steps still has to yield, in its forward order
 Rest(S, word, i, proj) ==
@@ -38,15 +46,19 @@ Run(list, kind, proj, word) ==
   [yields |-> [i \in 1..Len(word) |-> Yield(S, word, i, proj)],
    hints  |-> [i \in 1..Len(word) + 1 |-> Rem(S, word, i - 1)],
    count  |-> Rem(S, word, Len(word)),
+   last   |-> (LET rest == Rest(S, word, Len(word), proj) IN IF rest = <<>> THEN NoItem ELSE rest[Len(rest)]),
+   rest   |-> Rest(S, word, Len(word), proj),
    clones |-> [i \in 1..Len(word) + 1 |-> Rest(S, word, i - 1, proj)]]
 
 \* entries whose value was written through a mutable iterator (value + Delta for every yielded entry)
-WrittenKeys(S, word) == {LET c == Cursor(word, i - 1, 1, Len(S)) IN
-                          IF c[1] > c[2] THEN 0 ELSE IF word[i] = "n" THEN S[c[1]].k ELSE S[c[2]].k : i \in 1..Len(word)} \ {0}
+WrittenKeys(S, word) == {LET j == YieldIdx(S, word, i) IN IF j = 0 THEN 0 ELSE S[j].k : i \in 1..Len(word)} \ {0}
 AfterWrites(list, kind, word, delta) ==
   LET W == WrittenKeys(Order(list, kind), word) IN
   [i \in 1..Len(list) |-> IF list[i].k \in W THEN Ent(list[i].k, list[i].v + delta) ELSE list[i]]
 
-\* every word over {n, b} up to a length (for TLC's own exhaustive sanity check of the machine)
-Words(maxlen) == UNION {[1..m -> {"n", "b"}] : m \in 0..maxlen}
+\* every word of plain steps up to a length, and every word up to a (shorter) length over steps with skips 0..maxskip
+\* (for TLC's own exhaustive sanity check of the machine)
+Plain == {<<"n", -1>>, <<"b", -1>>}
+Words(maxlen) == UNION {[1..m -> Plain] : m \in 0..maxlen}
+SkipWords(maxlen, maxskip) == UNION {[1..m -> Plain \cup ({"n", "b"} \X (0..maxskip))] : m \in 0..maxlen}
 =============================================================================
